@@ -2427,10 +2427,34 @@ class Normalizer:
                 return None, True
             return None, False
 
+        def const_value(expr):
+            ce = getattr(nz, '_ce', None)
+            if ce is None:
+                from .consteval import ConstEval
+                ce = nz._ce = ConstEval(nz.prog)
+            try:
+                return ce.try_eval(expr, fi.module, fi.cls, {})
+            except Exception:
+                return False, None
+
         class T(ast.NodeTransformer):
             def visit_Call(self, node):
                 node = self.generic_visit(node)
                 f = node.func
+                # X.translate(<constant table>) -> X.replace(k1, v1).replace(k2, v2)...  when no image contains another key (then the
+                # simultaneous translation and the chain of replacements are the same function)
+                if isinstance(f, ast.Attribute) and f.attr == 'translate' and len(node.args) == 1 and not node.keywords \
+                        and isinstance(node.args[0], (ast.Name, ast.Attribute, ast.Call)):
+                    okt, table = const_value(node.args[0])
+                    if okt and isinstance(table, dict) and table and len(table) <= 8 and all(isinstance(k, int) for k in table):
+                        pairs = [(chr(k), '' if v is None else (chr(v) if isinstance(v, int) else v)) for k, v in table.items()]
+                        keys = {k for k, _ in pairs}
+                        if all(isinstance(v, str) and not (set(v) & (keys - {k})) and k not in v for k, v in pairs):
+                            out_ = f.value
+                            for k, v in pairs:
+                                out_ = ast.Call(func=ast.Attribute(value=out_, attr='replace', ctx=ast.Load()),
+                                                args=[ast.Constant(value=k), ast.Constant(value=v)], keywords=[])
+                            return ast.copy_location(out_, node)
                 # TABLE.get('constant'[, default]) on a constant table that is not an anchor: the entry / the default
                 if isinstance(f, ast.Attribute) and f.attr == 'get' and 1 <= len(node.args) <= 2 and not node.keywords \
                         and isinstance(node.args[0], ast.Constant) and isinstance(f.value, (ast.Name, ast.Attribute)):
@@ -2470,6 +2494,13 @@ class Normalizer:
                         out.append(ast.fix_missing_locations(s2))
         return out
 
+    @staticmethod
+    def _used_once_as_iter(name, stmts) -> bool:
+        """The local is read exactly once in the block, as the iterable of a `for` statement."""
+        loads = [n for s_ in stmts for n in ast.walk(s_) if isinstance(n, ast.Name) and n.id == name and isinstance(n.ctx, ast.Load)]
+        fors = [s_ for s_ in stmts if isinstance(s_, ast.For) and isinstance(s_.iter, ast.Name) and s_.iter.id == name]
+        return len(loads) == 1 and len(fors) == 1
+
     def unroll_block(self, stmts: list, fi: FuncInfo) -> list:
         out = []
         displays = {}       # names bound, in this block, to a display of names / constants (a parameter pack of an inlined helper)
@@ -2479,9 +2510,12 @@ class Normalizer:
             nm, val = _single_name_assign(s)
             for x in stores_in([s]):
                 displays.pop(x, None)
-            if nm is not None and isinstance(val, (ast.Tuple, ast.List)) and val.elts \
-                    and all(_atomic(e) or (isinstance(e, (ast.Tuple, ast.List)) and all(_atomic(x) for x in e.elts)) for e in val.elts):
-                displays[nm] = val
+            if nm is not None and isinstance(val, (ast.Tuple, ast.List)) and val.elts and len(val.elts) <= 8 \
+                    and not any(isinstance(e, ast.Starred) for e in val.elts):
+                # (entries that are not names / constants are bound to temporaries by the unrolling, in order)
+                if all(_atomic(e) or (isinstance(e, (ast.Tuple, ast.List)) and all(_atomic(x) for x in e.elts)) for e in val.elts) \
+                        or self._used_once_as_iter(nm, stmts):
+                    displays[nm] = val
             if isinstance(s, (ast.FunctionDef, ast.AsyncFunctionDef, ast.ClassDef)):
                 out.append(s)
                 continue
@@ -2561,6 +2595,22 @@ class Normalizer:
             for k, e in enumerate(entries):
                 if _atomic(e) or (isinstance(e, (ast.Tuple, ast.List)) and all(_atomic(x) for x in e.elts)):
                     bound.append(e)
+                    continue
+                if isinstance(e, (ast.Tuple, ast.List)) and isinstance(s.target, (ast.Tuple, ast.List)) and len(e.elts) == len(s.target.elts) \
+                        and all(isinstance(t, ast.Name) for t in s.target.elts) and not any(isinstance(x, ast.Starred) for x in e.elts):
+                    # an entry that is itself a display: its elements are bound one by one
+                    elts = []
+                    for t, x in zip(s.target.elts, e.elts):
+                        if _atomic(x):
+                            elts.append(x)
+                            continue
+                        name = f'{t.id}_{k + 1}'
+                        while name in taken:
+                            name = '_' + name
+                        taken.add(name)
+                        out.append(at(ast.Assign(targets=[ast.Name(id=name, ctx=ast.Store())], value=x), s))
+                        elts.append(ast.Name(id=name, ctx=ast.Load()))
+                    bound.append(ast.Tuple(elts=elts, ctx=ast.Load()))
                     continue
                 base = s.target.id if isinstance(s.target, ast.Name) else 'entry'
                 name = f'{base}_{k + 1}'
